@@ -276,7 +276,7 @@ def execute(case):
     probes = {"expired_in_enumeration": 0, "expired_in_initial_stack": 0,
               "expired_in_production_loop": 0, "stream_cut_short": 0,
               "empty_prefix": 0, "result_without_resolution": 0,
-              "input_raises_without_deadline": 0, "long_input_runs": 0}
+              "input_raises_without_deadline": 0, "long_input_runs": 0, "int_timeout_runs": 0}
     obs = []
     deltas = case.get("deltas")
     n_eval = 0
@@ -494,6 +494,10 @@ def execute(case):
         timeout = (vals[k - 1] + hi) / 2.0 - vals[0]
         if timeout <= 0:
             continue
+        if case.get("int_timeouts") and float(timeout).is_integer():
+            # the same deadline handed over as an int (the signature says Union[float, int])
+            timeout = int(timeout)
+            probes["int_timeout_runs"] += 1
         S, log, exc_, _ = _run(lib, case, timeout, "gen", deltas)
         n_eval += 1
         faults["deadline"] += 1
@@ -628,6 +632,11 @@ def plan(prop, tier, seed):
         elif r < 0.4:
             # very large readings (float spacing, int-vs-float handling)
             base["deltas"] = [rng.choice([1e6, 3e6, 1e7]) for _ in range(5)]
+        elif r < 0.52:
+            # the clock advances by 2 per read: the deadline between two reads is an odd whole
+            # number and is handed over as an int
+            base["deltas"] = [2.0]
+            base["int_timeouts"] = True
         R = _learn_R(lib, base)
         if R is None:
             cases.append(dict(base, expiries=[], stalls=[]))
